@@ -271,7 +271,9 @@ class StageExecution(StageNavigationMixin):
                         return WorkflowStatus.STOPPED
                     if WorkflowStatus.CANCELED in after_stage_statuses:
                         return WorkflowStatus.CANCELED
-                    if any(s in {WorkflowStatus.NOT_STARTED, WorkflowStatus.RUNNING} for s in after_stage_statuses):
+                    # ... and an after-stage that waits (SUSPENDED for a signal, PAUSED) is
+                    # as unfinished as one that runs.
+                    if any(not s.is_complete for s in after_stage_statuses):
                         return WorkflowStatus.RUNNING
                 return WorkflowStatus.SUCCEEDED
             return WorkflowStatus.NOT_STARTED
@@ -318,8 +320,11 @@ class StageExecution(StageNavigationMixin):
             if WorkflowStatus.CANCELED in after_stage_statuses:
                 return WorkflowStatus.CANCELED
 
-            # Check if after-stages are still in progress
-            if any(s in incomplete_statuses for s in after_stage_statuses):
+            # Check if after-stages are still in progress. An after-stage that waits
+            # (SUSPENDED for a signal, PAUSED for a resume) is as unfinished as one that
+            # runs: counting only NOT_STARTED / RUNNING let the stage - and the workflow -
+            # report SUCCEEDED around it as soon as a sibling after-stage completed it.
+            if any(not s.is_complete for s in after_stage_statuses):
                 return WorkflowStatus.RUNNING
 
         # All work complete - return final status
